@@ -49,6 +49,9 @@ def randgraph(
         if ensurelink:
             k = max(k, 1)
 
+        # never ask for more neighbors than there are vertices to pick from
+        k = min(k, count)
+
         adj[verts[i]] = random.sample(verts, k)
 
     return adjlist.load_adj_dict(adj, linktype=edge)
